@@ -709,7 +709,8 @@ class DAG(BaseDAG[P, RVDAG]):
                 return ".".join(node.DAG_PREFIX + [id_])
 
             # only the ExecNodes of the SubDAG must be affected by the is_active
-            is_active = False if ARG_NAME_ACTIVATE not in kwargs else kwargs[ARG_NAME_ACTIVATE]
+            # NOTE: a constant falsy value (twz_active=False) is a legitimate value of the flag
+            is_active_provided = ARG_NAME_ACTIVATE in kwargs
 
             input_uxns = [UsageExecNode(to_subdag_id(uxn.id), uxn.key) for uxn in self.input_uxns]
 
@@ -778,7 +779,7 @@ class DAG(BaseDAG[P, RVDAG]):
                             to_subdag_id(exec_node.active.id), exec_node.active.key
                         )
 
-                    if is_active is not False:
+                    if is_active_provided:
                         if exec_node.active is not None:
                             raise RuntimeError(
                                 f"Trying to set active status for ExecNode {id_} in SubDAG {self.qualname} "
